@@ -247,15 +247,17 @@ pub fn oracle_r(_ctx: &RunCtx, gp: &GenPoint, log: &mut CaseLog) -> Result<(), S
         for (who, ev) in [("prover", &pev), ("verifier", &vev)] {
             let hs: Vec<&Vec<u8>> = ev.iter().filter_map(|e| if let Event::Append { label, data } = e { if label == b"H" { Some(data) } else { None } } else { None }).collect();
             let gs: Vec<&Vec<u8>> = ev.iter().filter_map(|e| if let Event::Append { label, data } = e { if label == b"G" { Some(data) } else { None } } else { None }).collect();
-            if hs.len() != 1 || hs[0].as_slice() != p.h_base().compress().as_bytes() {
+            // (a party may run the protocol's absorptions more than once - on clones, to re-derive challenges - so the messages
+            // are judged by content: every H message is the encoding of h, the G messages are the list g_0..g_{d-1}, repeated)
+            if hs.is_empty() || hs.iter().any(|x| x.as_slice() != p.h_base().compress().as_bytes()) {
                 return Err(format!("the {} does not hand the encoding of the value generator to the transcript", who));
             }
-            if gs.len() != ext {
-                return Err(format!("the {} hands {} blinding generators to the transcript at extension degree {}", who, gs.len(), ext));
+            if gs.len() < ext || gs.len() % ext != 0 || gs.len() / ext != hs.len() {
+                return Err(format!("the {} hands {} blinding generators to the transcript at extension degree {} ({} H messages)", who, gs.len(), ext, hs.len()));
             }
-            for k in 0..ext {
-                if gs[k].as_slice() != p.g_bases()[k].compress().as_bytes() {
-                    return Err(format!("the {} hands something other than the encoding of blinding generator {} to the transcript", who, k));
+            for k in 0..gs.len() {
+                if gs[k].as_slice() != p.g_bases()[k % ext].compress().as_bytes() {
+                    return Err(format!("the {} hands something other than the encoding of blinding generator {} to the transcript", who, k % ext));
                 }
             }
         }
